@@ -34,7 +34,7 @@ let parse_op s =
   | ["+"] -> ONewGen
   | ["-"; r] | ["~"; r] -> ONormalize (nat_of_int (int_of_string r))
   | ["F"] -> OFreeze
-  | ["W"] | ["W"; _] -> OThaw
+  | ["W"] | ["W"; _] | ["K"] -> OThaw
   | _ -> failwith ("bad op: " ^ s)
 
 let show_out = function
